@@ -16,6 +16,19 @@ From Coercion.Store Require Import Tree Rows Spec SqliteModel CosmosModel.
 Definition enc_req0 (b : blob) : option code := if bl_enc b then Some (CReq b) else None.
 Definition dec_req0 (_ : tok) (c : code) : option blob := match c with CReq b => Some b | _ => None end.
 Definition enc_att0 (a : attempt) : option code := if bl_enc (at_resp a) then Some (CAtt a) else None.
+
+(* [bad] lists the indices of the strings of the case that are not valid UTF-8. The JSON encoder refuses
+   them: inside a request / response (the harness marks such a value unencodable), as the message of a
+   plugin error at any depth of an attempt, and (cosmosdb) as a name / description / plugin name. *)
+Fixpoint memN (n : N) (l : list N) : bool := match l with [] => false | x :: r => N.eqb n x || memN n r end.
+Fixpoint perr_bad (bad : list N) (e : perr) : bool :=
+  match e with
+  | PErr _ m _ w => memN m bad || match w with Some e' => perr_bad bad e' | None => false end
+  end.
+Definition enc_att_b (bad : list N) (a : attempt) : option code :=
+  if bl_enc (at_resp a) && negb (match at_err a with Some e => perr_bad bad e | None => false end)
+  then Some (CAtt a) else None.
+Definition str_ok_b (bad : list N) (t : tok) : bool := negb (memN (t_ix t) bad).
 Definition dec_att0 (_ : tok) (c : code) : option attempt := match c with CAtt a => Some a | _ => None end.
 
 (* operations as the harness prints them (Base plan terms) *)
@@ -46,7 +59,8 @@ Record case := {
   k_backend : nat;                          (* 0 = sqlite, 1 = cosmosdb *)
   k_table : list plan;
   k_steps : list (cop * obs);
-  k_items : list (plan * list row) }.       (* cosmosdb: a plan and the items VerifPlanItems emitted for it (codes blanked) *)
+  k_items : list (plan * list row);         (* cosmosdb: a plan and the items VerifPlanItems emitted for it (codes blanked) *)
+  k_bad : list N }.                         (* indices of the strings of the case that are not valid UTF-8 *)
 
 (* an operation, possibly with an injected fault *)
 Inductive xop := XOp (o : op) | XCreateStage (n : nat) (p : spln) | XDeleteStage (n : nat) (id : uid)
@@ -71,15 +85,15 @@ Record vault := {
 Definition on_fst {A B} (m : A -> A * bool) (s : A * B) : (A * B) * bool :=
   let (a, ok) := m (fst s) in ((a, snd s), ok).
 
-Definition sqlite_vault : vault :=
+Definition sqlite_vault (bad : list N) : vault :=
   {| v_st := (db * N)%type; v_init := ([], 0%N);
      v_step := fun x s =>
                  let dec := dec_att_bad (snd s) in
                  match x with
-                 | XOp o => on_fst (SqliteModel.step enc_req0 dec_req0 enc_att0 dec o) s
-                 | XCreateStage _ p => on_fst (SqliteModel.create enc_req0 enc_att0 p) s
+                 | XOp o => on_fst (SqliteModel.step enc_req0 dec_req0 (enc_att_b bad) dec o) s
+                 | XCreateStage _ p => on_fst (SqliteModel.create enc_req0 (enc_att_b bad) p) s
                  | XDeleteStage _ id => on_fst (SqliteModel.delete dec_req0 dec id) s
-                 | XUpdatePlanStage _ id rs st sub => on_fst (SqliteModel.step enc_req0 dec_req0 enc_att0 dec (OUpdatePlan id rs st sub)) s
+                 | XUpdatePlanStage _ id rs st sub => on_fst (SqliteModel.step enc_req0 dec_req0 (enc_att_b bad) dec (OUpdatePlan id rs st sub)) s
                  | XSetBad ty => ((fst s, ty), true)
                  end;
      v_read := fun id s => SqliteModel.read dec_req0 (dec_att_bad (snd s)) id (fst s);
@@ -87,14 +101,15 @@ Definition sqlite_vault : vault :=
      v_exists := fun id s => SqliteModel.exists_plan id (fst s);
      v_search := fun _ _ => false |}.
 
-Definition cosmos_vault : vault :=
+Definition cosmos_vault (bad : list N) : vault :=
   {| v_st := (cdb * N)%type; v_init := (([], []), 0%N);
      v_step := fun x s =>
                  let dec := dec_att_bad (snd s) in
                  match x with
-                 | XOp o => on_fst (CosmosModel.step enc_req0 dec_req0 enc_att0 dec o) s
+                 | XOp (OCreate p) => on_fst (CosmosModel.create_checked enc_req0 dec_req0 (enc_att_b bad) dec (str_ok_b bad) 2 p) s
+                 | XOp o => on_fst (CosmosModel.step enc_req0 dec_req0 (enc_att_b bad) dec o) s
                  | XCreateStage 3 p => on_fst (CosmosModel.create_readerr p) s
-                 | XCreateStage n p => on_fst (CosmosModel.create_stage enc_req0 dec_req0 enc_att0 dec n p) s
+                 | XCreateStage n p => on_fst (CosmosModel.create_checked enc_req0 dec_req0 (enc_att_b bad) dec (str_ok_b bad) n p) s
                  | XDeleteStage n id => on_fst (CosmosModel.delete_stage dec_req0 dec n id) s
                  | XUpdatePlanStage n id rs st sub => on_fst (CosmosModel.updatePlan_stage n id rs st sub) s
                  | XSetBad ty => ((fst s, ty), true)
@@ -296,31 +311,31 @@ Fixpoint first_row_diff (j : nat) (a b : list row) : option nat :=
   | _, _ => Some j
   end.
 
-Fixpoint check_items (i : nat) (l : list (plan * list row)) : list nat :=
+Fixpoint check_items (bad : list N) (i : nat) (l : list (plan * list row)) : list nat :=
   match l with
   | [] => []
   | (p, items) :: r =>
     match of_plan p with
     | None => [9; i]
     | Some q =>
-      match CosmosModel.planToItems enc_req0 enc_att0 q with
-      | None => match items with [] => check_items (S i) r | _ => [42; i] end   (* [] = the implementation refused too *)
+      match (if forallb (str_ok_b bad) (pln_strs q) then CosmosModel.planToItems enc_req0 (enc_att_b bad) q else None) with
+      | None => match items with [] => check_items bad (S i) r | _ => [42; i] end   (* [] = the implementation refused too *)
       | Some m => match first_row_diff 0 m items with
-                  | None => check_items (S i) r
+                  | None => check_items bad (S i) r
                   | Some j => [41; i; j]
                   end
       end
     end
   end.
 
-Definition vault_of (n : nat) : option vault :=
-  match n with 0 => Some sqlite_vault | 1 => Some cosmos_vault | _ => None end.
+Definition vault_of (n : nat) (bad : list N) : option vault :=
+  match n with 0 => Some (sqlite_vault bad) | 1 => Some (cosmos_vault bad) | _ => None end.
 
 Definition check_case (c : case) : list nat :=
-  match vault_of (k_backend c) with
+  match vault_of (k_backend c) (k_bad c) with
   | None => [8]
   | Some v =>
-    match check_items 0 (k_items c) with
+    match check_items (k_bad c) 0 (k_items c) with
     | [] => check_steps v (k_table c) 0 (v_init v) (k_steps c)
     | bad => bad
     end
